@@ -126,15 +126,17 @@ Definition prep_send (sg : subgraph) (w : world) : world :=
                end) (sg_send sg) w.
 
 (* (2) drain the receive handoffs into the local environment *)
+Definition recv_step (acc : world * bufs) (e : N * bool) : world * bufs :=
+  let '(w, loc) := acc in
+  let h := fst e in
+  let src := if snd e then get h (w_back w) else get h (w_buf w) in
+  let w1 := match src with [] => w | _ => set_work w true end in
+  let w2 := if snd e then set_back w1 (update h [] (w_back w1))
+            else set_buf w1 (update h [] (w_buf w1)) in
+  (w2, update h src loc).
+
 Definition recv_all (sg : subgraph) (w : world) : world * bufs :=
-  fold_left (fun (acc : world * bufs) (e : N * bool) =>
-               let '(w, loc) := acc in
-               let h := fst e in
-               let src := if snd e then get h (w_back w) else get h (w_buf w) in
-               let w1 := match src with [] => w | _ => set_work w true end in
-               let w2 := if snd e then set_back w1 (update h [] (w_back w1))
-                         else set_buf w1 (update h [] (w_buf w1)) in
-               (w2, update h src loc)) (sg_recv sg) (w, []).
+  fold_left recv_step (sg_recv sg) (w, []).
 
 (* (3) one operator; [ext] = this tick's external items per source *)
 Definition run_node (sg : subgraph) (ext : bufs) (acc : world * bufs) (n : node) : world * bufs :=
